@@ -5,10 +5,1050 @@ Import ListNotations.
 Open Scope string_scope.
 Open Scope list_scope.
 
-Lemma del_tag_error_unchanged : forall st nm e st', del_tag st nm = (Err e, st') -> st' = st.
+(* ---------------------------------------------------------------- basics *)
+Lemma seqb_eq : forall a b, String.eqb a b = true <-> a = b.
+Proof. apply String.eqb_eq. Qed.
+Lemma seqb_neq : forall a b, String.eqb a b = false <-> a <> b.
+Proof. apply String.eqb_neq. Qed.
+
+Ltac seq_cases a b :=
+  let E := fresh "E" in
+  destruct (String.eqb a b) eqn:E; [apply seqb_eq in E | apply seqb_neq in E].
+
+Lemma mem_s_In : forall n l, mem_s n l = true <-> In n l.
 Proof.
-  intros st nm e st'. unfold del_tag.
-  destruct (get (tags st) nm); [|intros H; inversion H; auto].
-  destruct (nonempty (t_refby t)); [intros H; inversion H; auto|].
-  destruct (negb _); intros H; inversion H.
+  intros n l. unfold mem_s. rewrite existsb_exists. split.
+  - intros [x [Hx He]]. apply seqb_eq in He. subst. auto.
+  - intros H. exists n. split; auto. apply String.eqb_refl.
 Qed.
+Lemma mem_s_not_In : forall n l, mem_s n l = false <-> ~ In n l.
+Proof.
+  intros n l. rewrite <- mem_s_In. destruct (mem_s n l).
+  - split; [intros H; discriminate H|]. intros H. exfalso. apply H. reflexivity.
+  - split; auto.
+Qed.
+
+Lemma In_add_name : forall x n l, In x (add_name n l) <-> x = n \/ In x l.
+Proof.
+  intros x n l. unfold add_name. destruct (mem_s n l) eqn:E.
+  - apply mem_s_In in E. split; auto. intros [->|H]; auto.
+  - simpl. split; intros [H|H]; auto.
+Qed.
+Lemma In_rem_name : forall x n l, In x (rem_name n l) <-> x <> n /\ In x l.
+Proof.
+  intros x n l. unfold rem_name. rewrite filter_In. split.
+  - intros [H1 H2]. split; auto. apply negb_true_iff in H2. apply seqb_neq in H2. auto.
+  - intros [H1 H2]. split; auto. apply negb_true_iff. apply seqb_neq. auto.
+Qed.
+
+Lemma get_set_same : forall ts n t, get (set ts n t) n = Some t.
+Proof.
+  induction ts as [|[k v] r IH]; intros n t; simpl.
+  - rewrite String.eqb_refl. reflexivity.
+  - seq_cases k n; simpl.
+    + subst. rewrite String.eqb_refl. reflexivity.
+    + apply seqb_neq in E. rewrite E. apply IH.
+Qed.
+Lemma get_set_other : forall ts n t m, n <> m -> get (set ts n t) m = get ts m.
+Proof.
+  induction ts as [|[k v] r IH]; intros n t m Hne; simpl.
+  - apply seqb_neq in Hne. rewrite Hne. reflexivity.
+  - seq_cases k n; simpl.
+    + subst. apply seqb_neq in Hne. rewrite Hne. reflexivity.
+    + seq_cases k m; auto.
+Qed.
+Lemma get_set : forall ts n t m, get (set ts n t) m = if String.eqb n m then Some t else get ts m.
+Proof.
+  intros. seq_cases n m.
+  - subst. apply get_set_same.
+  - apply get_set_other; auto.
+Qed.
+Lemma get_del : forall ts n m, get (del ts n) m = if String.eqb n m then None else get ts m.
+Proof.
+  unfold del. induction ts as [|[k v] r IH]; intros n m; simpl.
+  - destruct (String.eqb n m); reflexivity.
+  - seq_cases k n; simpl.
+    + subst. rewrite IH. destruct (String.eqb n m); reflexivity.
+    + rewrite IH. seq_cases k m; auto. subst.
+      assert (String.eqb n m = false) as ->; auto. apply seqb_neq. auto.
+Qed.
+Lemma get_map_tags : forall f ts n, get (map_tags f ts) n = option_map (f n) (get ts n).
+Proof.
+  intros f. induction ts as [|[k v] r IH]; intros n; simpl; auto.
+  seq_cases k n; simpl; auto. subst. reflexivity.
+Qed.
+
+Lemma has_get : forall ts n, has ts n = true <-> exists t, get ts n = Some t.
+Proof.
+  intros. unfold has. destruct (get ts n); split; intros; eauto; try congruence.
+  destruct H as [t H]. congruence.
+Qed.
+Lemma has_false_get : forall ts n, has ts n = false <-> get ts n = None.
+Proof. intros. unfold has. destruct (get ts n); split; intros; congruence. Qed.
+
+Lemma get_In_keys : forall ts n, has ts n = true <-> In n (keys ts).
+Proof.
+  induction ts as [|[k v] r IH]; intros n; unfold has; simpl.
+  - split; intros; [congruence|tauto].
+  - seq_cases k n.
+    + split; auto.
+    + unfold has in IH. rewrite IH. split; auto. intros [H|H]; auto. contradiction.
+Qed.
+
+Lemma keys_map_tags : forall f ts, keys (map_tags f ts) = keys ts.
+Proof. intros. unfold keys, map_tags. rewrite map_map. simpl. reflexivity. Qed.
+
+Lemma keys_set_has : forall ts n t, has ts n = true -> keys (set ts n t) = keys ts.
+Proof.
+  induction ts as [|[k v] r IH]; intros n t H.
+  - discriminate.
+  - simpl. unfold has in H. simpl in H. seq_cases k n; simpl; auto.
+    f_equal. apply IH. exact H.
+Qed.
+Lemma keys_set_new : forall ts n t, has ts n = false -> keys (set ts n t) = keys ts ++ [n].
+Proof.
+  induction ts as [|[k v] r IH]; intros n t H; simpl; auto.
+  unfold has in H. simpl in H. seq_cases k n; simpl.
+  - discriminate.
+  - f_equal. apply IH. exact H.
+Qed.
+Lemma keys_del : forall ts n, keys (del ts n) = filter (fun k => negb (String.eqb k n)) (keys ts).
+Proof.
+  induction ts as [|[k v] r IH]; intros n; simpl; auto.
+  destruct (negb (String.eqb k n)); simpl; rewrite IH; reflexivity.
+Qed.
+
+Lemma NoDup_filter : forall {A} (f : A -> bool) l, NoDup l -> NoDup (filter f l).
+Proof.
+  intros A f l H. induction H; simpl; [constructor|].
+  destruct (f x); auto. constructor; auto. rewrite filter_In. tauto.
+Qed.
+Lemma NoDup_app_single : forall {A} (l : list A) x, NoDup l -> ~ In x l -> NoDup (l ++ [x]).
+Proof.
+  intros A l x H Hn. induction H; simpl.
+  - constructor; auto. constructor.
+  - constructor.
+    + rewrite in_app_iff. simpl. intros [H1|[H1|[]]]; auto. subst. apply Hn. left; auto.
+    + apply IHNoDup. intros H1. apply Hn. right; auto.
+Qed.
+Lemma nodup_keys_set : forall ts n t, NoDup (keys ts) -> NoDup (keys (set ts n t)).
+Proof.
+  intros ts n t H. destruct (has ts n) eqn:E.
+  - rewrite keys_set_has; auto.
+  - rewrite keys_set_new; auto. apply NoDup_app_single; auto.
+    rewrite <- get_In_keys. congruence.
+Qed.
+Lemma nodup_keys_del : forall ts n, NoDup (keys ts) -> NoDup (keys (del ts n)).
+Proof. intros. rewrite keys_del. apply NoDup_filter. auto. Qed.
+
+Lemma refs_with_refby : forall t l, refs (with_refby t l) = refs t.
+Proof. reflexivity. Qed.
+Lemma In_refs : forall r t, In r (refs t) <-> In r (t_main t) \/ In r (t_sub t).
+Proof. intros. unfold refs. rewrite nodup_In, in_app_iff. tauto. Qed.
+
+(* ---------------------------------------------------------------- well-formed tag tables *)
+Definition closed (ts : tags_t) : Prop :=
+  forall k t r, get ts k = Some t -> In r (refs t) -> has ts r = true.
+Definition mirror (ts : tags_t) : Prop :=
+  forall a ta b, get ts a = Some ta ->
+    (In b (t_refby ta) <-> exists tb, get ts b = Some tb /\ In a (refs tb)).
+Definition ranked (ts : tags_t) (rank : name -> nat) : Prop :=
+  forall k t r, get ts k = Some t -> In r (refs t) -> rank r < rank k.
+Definition acyclic (ts : tags_t) : Prop := exists rank, ranked ts rank.
+
+Record wf_tags (ts : tags_t) : Prop := mkWf {
+  wf_nodup : NoDup (keys ts);
+  wf_closed : closed ts;
+  wf_mirror : mirror ts;
+  wf_acyclic : acyclic ts
+}.
+
+(* the declarative reading of [acyclic]: no tag reaches itself through references *)
+Inductive reach (ts : tags_t) : name -> name -> Prop :=
+| reach_step : forall a b t, get ts a = Some t -> In b (refs t) -> reach ts a b
+| reach_trans : forall a b c, reach ts a b -> reach ts b c -> reach ts a c.
+
+Lemma ranked_reach : forall ts rank a b, ranked ts rank -> reach ts a b -> rank b < rank a.
+Proof.
+  intros ts rank a b Hr H. induction H.
+  - eapply Hr; eauto.
+  - lia.
+Qed.
+Lemma acyclic_no_cycle : forall ts, acyclic ts -> forall a, ~ reach ts a a.
+Proof.
+  intros ts [rank Hr] a H. apply (ranked_reach _ _ _ _ Hr) in H. lia.
+Qed.
+
+Lemma wf_empty : wf_tags [].
+Proof.
+  constructor.
+  - constructor.
+  - intros k t r H. discriminate.
+  - intros a ta b H. discriminate.
+  - exists (fun _ => 0). intros k t r H. discriminate.
+Qed.
+
+(* tables with the same graph (keys, references, reverse references) are equally well-formed *)
+Definition gview (t : tag) := (refs t, t_refby t).
+Definition same_graph (ts ts' : tags_t) : Prop :=
+  forall k, option_map gview (get ts k) = option_map gview (get ts' k).
+
+Lemma same_graph_get : forall ts ts' k t', same_graph ts ts' -> get ts' k = Some t' ->
+  exists t, get ts k = Some t /\ refs t = refs t' /\ t_refby t = t_refby t'.
+Proof.
+  intros ts ts' k t' H G. specialize (H k). rewrite G in H. simpl in H.
+  destruct (get ts k) as [t|]; simpl in H; [|discriminate].
+  exists t. unfold gview in H. injection H as R1 R2. auto.
+Qed.
+Lemma same_graph_sym : forall ts ts', same_graph ts ts' -> same_graph ts' ts.
+Proof. intros ts ts' H k. symmetry. apply H. Qed.
+Lemma same_graph_refl : forall ts, same_graph ts ts.
+Proof. intros ts k. reflexivity. Qed.
+Lemma same_graph_trans : forall a b c, same_graph a b -> same_graph b c -> same_graph a c.
+Proof. intros a b c H1 H2 k. rewrite H1. apply H2. Qed.
+Lemma same_graph_has : forall ts ts' k, same_graph ts ts' -> has ts k = has ts' k.
+Proof.
+  intros ts ts' k H. specialize (H k). unfold has.
+  destruct (get ts k), (get ts' k); simpl in H; congruence.
+Qed.
+
+Lemma wf_same_graph : forall ts ts', same_graph ts ts' -> NoDup (keys ts') -> wf_tags ts -> wf_tags ts'.
+Proof.
+  intros ts ts' H Hn [_ Hc Hm [rank Hr]]. constructor; auto.
+  - intros k t' r G Hin. destruct (same_graph_get _ _ _ _ H G) as [t [G1 [E1 E2]]].
+    rewrite <- (same_graph_has _ _ _ H). eapply Hc; eauto. rewrite E1. auto.
+  - intros a ta' b G. destruct (same_graph_get _ _ _ _ H G) as [ta [G1 [E1 E2]]].
+    rewrite <- E2. rewrite (Hm a ta b G1). split.
+    + intros [tb [Gb Hin]]. pose proof (H b) as Hb. rewrite Gb in Hb. simpl in Hb.
+      destruct (get ts' b) as [tb'|] eqn:Gb'; simpl in Hb; [|discriminate].
+      exists tb'. split; auto. unfold gview in Hb. injection Hb as R1 R2. rewrite <- R1. auto.
+    + intros [tb' [Gb' Hin]]. destruct (same_graph_get _ _ _ _ H Gb') as [tb [Gb [F1 F2]]].
+      exists tb. split; auto. rewrite F1. auto.
+  - exists rank. intros k t' r G Hin. destruct (same_graph_get _ _ _ _ H G) as [t [G1 [E1 E2]]].
+    eapply Hr; eauto. rewrite E1. auto.
+Qed.
+
+(* replacing a tag by one with the same references and reverse references *)
+Lemma same_graph_set : forall ts n t t', get ts n = Some t -> gview t' = gview t -> same_graph ts (set ts n t').
+Proof.
+  intros ts n t t' G E k. rewrite get_set. seq_cases n k; auto.
+  subst. rewrite G. simpl. congruence.
+Qed.
+
+(* ---------------------------------------------------------------- has after the table operations *)
+Lemma has_map_tags : forall f ts k, has (map_tags f ts) k = has ts k.
+Proof. intros. unfold has. rewrite get_map_tags. destruct (get ts k); reflexivity. Qed.
+Lemma has_set : forall ts n t k, has (set ts n t) k = String.eqb n k || has ts k.
+Proof. intros. unfold has. rewrite get_set. destruct (String.eqb n k); reflexivity. Qed.
+Lemma has_del : forall ts n k, has (del ts n) k = negb (String.eqb n k) && has ts k.
+Proof. intros. unfold has. rewrite get_del. destruct (String.eqb n k); reflexivity. Qed.
+
+Lemma forallb_has : forall ts l, forallb (has ts) l = true <-> forall r, In r l -> has ts r = true.
+Proof. intros. apply forallb_forall. Qed.
+
+Lemma list_max_ge : forall (f : name -> nat) l r, In r l -> f r <= list_max (map f l).
+Proof.
+  intros f l r. induction l as [|x l IH]; simpl; [tauto|].
+  intros [->|H]; [lia|]. specialize (IH H). lia.
+Qed.
+
+Lemma wf_no_self : forall ts k t, wf_tags ts -> get ts k = Some t -> ~ In k (refs t).
+Proof.
+  intros ts k t [_ _ _ [rank Hr]] G H. specialize (Hr k t k G H). lia.
+Qed.
+
+(* ---------------------------------------------------------------- AddTag keeps the table well-formed *)
+Definition add_refby_f (nm : name) (R : list name) (k : name) (t : tag) : tag :=
+  if mem_s k R then with_refby t (add_name nm (t_refby t)) else t.
+
+Lemma refs_add_refby_f : forall nm R k t, refs (add_refby_f nm R k t) = refs t.
+Proof. intros. unfold add_refby_f. destruct (mem_s k R); reflexivity. Qed.
+
+Lemma wf_add : forall ts nm nt,
+  wf_tags ts -> has ts nm = false -> ~ In nm (refs nt) ->
+  (forall r, In r (refs nt) -> has ts r = true) -> t_refby nt = [] ->
+  wf_tags (map_tags (add_refby_f nm (refs nt)) (set ts nm nt)).
+Proof.
+  intros ts nm nt W Hnew Hself Hex Hrb. set (R := refs nt) in *.
+  pose proof W as [Wn Wc Wm [rank Wr]].
+  assert (Hnone : get ts nm = None) by (apply has_false_get; auto).
+  constructor.
+  - rewrite keys_map_tags. apply nodup_keys_set. auto.
+  - intros k t r G Hin. rewrite has_map_tags, has_set.
+    rewrite get_map_tags, get_set in G. seq_cases nm k.
+    + subst k. cbn [option_map] in G. injection G as <-. rewrite refs_add_refby_f in Hin.
+      rewrite (Hex r Hin). apply orb_true_r.
+    + destruct (get ts k) as [t0|] eqn:G0; cbn [option_map] in G; [|discriminate]. injection G as <-.
+      rewrite refs_add_refby_f in Hin. rewrite (Wc k t0 r G0 Hin). apply orb_true_r.
+  - intros a ta b G. rewrite get_map_tags, get_set in G. seq_cases nm a.
+    + subst a. cbn [option_map] in G. injection G as <-.
+      assert (E0 : add_refby_f nm R nm nt = nt).
+      { unfold add_refby_f. apply mem_s_not_In in Hself. fold R in Hself. rewrite Hself. reflexivity. }
+      rewrite E0, Hrb. split; [intros []|].
+      intros [tb [Gb Hin]]. rewrite get_map_tags, get_set in Gb. seq_cases nm b.
+      * subst b. cbn [option_map] in Gb. injection Gb as <-. rewrite refs_add_refby_f in Hin.
+        contradiction.
+      * destruct (get ts b) as [tb0|] eqn:Gb0; cbn [option_map] in Gb; [|discriminate]. injection Gb as <-.
+        rewrite refs_add_refby_f in Hin. pose proof (Wc b tb0 nm Gb0 Hin). congruence.
+    + destruct (get ts a) as [ta0|] eqn:Ga0; cbn [option_map] in G; [|discriminate]. injection G as <-.
+      assert (Hb : In b (t_refby (add_refby_f nm R a ta0)) <-> (In a R /\ b = nm) \/ In b (t_refby ta0)).
+      { unfold add_refby_f. destruct (mem_s a R) eqn:Em.
+        - apply mem_s_In in Em. simpl. rewrite In_add_name. tauto.
+        - apply mem_s_not_In in Em. tauto. }
+      rewrite Hb. rewrite (Wm a ta0 b Ga0). split.
+      * intros [[Ha ->]|[tb [Gb Hin]]].
+        -- exists (add_refby_f nm R nm nt). split.
+           ++ rewrite get_map_tags, get_set_same. reflexivity.
+           ++ rewrite refs_add_refby_f. exact Ha.
+        -- exists (add_refby_f nm R b tb). split.
+           ++ rewrite get_map_tags, get_set. seq_cases nm b; [subst; congruence|]. rewrite Gb. reflexivity.
+           ++ rewrite refs_add_refby_f. exact Hin.
+      * intros [tb [Gb Hin]]. rewrite get_map_tags, get_set in Gb. seq_cases nm b.
+        -- subst b. cbn [option_map] in Gb. injection Gb as <-. rewrite refs_add_refby_f in Hin. left. auto.
+        -- destruct (get ts b) as [tb0|] eqn:Gb0; cbn [option_map] in Gb; [|discriminate]. injection Gb as <-.
+           rewrite refs_add_refby_f in Hin. right. exists tb0. auto.
+  - exists (fun x => if String.eqb x nm then S (list_max (map rank R)) else rank x).
+    intros k t r G Hin. rewrite get_map_tags, get_set in G. seq_cases nm k.
+    + subst k. cbn [option_map] in G. injection G as <-. rewrite refs_add_refby_f in Hin. fold R in Hin.
+      rewrite String.eqb_refl. seq_cases r nm; [subst; contradiction|].
+      pose proof (list_max_ge rank R r Hin). lia.
+    + destruct (get ts k) as [t0|] eqn:G0; cbn [option_map] in G; [|discriminate]. injection G as <-.
+      rewrite refs_add_refby_f in Hin. seq_cases k nm; [subst; congruence|].
+      seq_cases r nm.
+      * subst r. pose proof (Wc k t0 nm G0 Hin). congruence.
+      * eapply Wr; eauto.
+Qed.
+
+(* ---------------------------------------------------------------- DelTag *)
+Definition del_refby_f (nm : name) (R : list name) (k : name) (t : tag) : tag :=
+  if mem_s k R then with_refby t (rem_name nm (t_refby t)) else t.
+Lemma refs_del_refby_f : forall nm R k t, refs (del_refby_f nm R k t) = refs t.
+Proof. intros. unfold del_refby_f. destruct (mem_s k R); reflexivity. Qed.
+
+Lemma wf_del : forall ts nm tg,
+  wf_tags ts -> get ts nm = Some tg -> t_refby tg = [] ->
+  wf_tags (map_tags (del_refby_f nm (refs tg)) (del ts nm)).
+Proof.
+  intros ts nm tg W Gn Hrb. set (R := refs tg) in *.
+  pose proof W as [Wn Wc Wm [rank Wr]].
+  (* nobody references nm *)
+  assert (Hnoref : forall b tb, get ts b = Some tb -> ~ In nm (refs tb)).
+  { intros b tb Gb Hin. assert (In b (t_refby tg)) by (apply (Wm nm tg b Gn); eauto). rewrite Hrb in H. destruct H. }
+  constructor.
+  - rewrite keys_map_tags. apply nodup_keys_del. auto.
+  - intros k t r G Hin. rewrite has_map_tags, has_del.
+    rewrite get_map_tags, get_del in G. seq_cases nm k; [discriminate|].
+    destruct (get ts k) as [t0|] eqn:G0; cbn [option_map] in G; [|discriminate]. injection G as <-.
+    rewrite refs_del_refby_f in Hin. rewrite (Wc k t0 r G0 Hin).
+    seq_cases nm r; [|reflexivity]. subst r. exfalso. eapply Hnoref; eauto.
+  - intros a ta b G. rewrite get_map_tags, get_del in G. seq_cases nm a; [discriminate|].
+    destruct (get ts a) as [ta0|] eqn:Ga0; cbn [option_map] in G; [|discriminate]. injection G as <-.
+    assert (Hb : In b (t_refby (del_refby_f nm R a ta0)) <-> b <> nm /\ In b (t_refby ta0)).
+    { unfold del_refby_f. destruct (mem_s a R) eqn:Em.
+      - simpl. apply In_rem_name.
+      - apply mem_s_not_In in Em. split; [|tauto]. intros Hin. split; auto. intros ->.
+        apply Em. apply (Wm a ta0 nm Ga0) in Hin. destruct Hin as [tb [Gb Hin]]. unfold R. congruence. }
+    rewrite Hb. rewrite (Wm a ta0 b Ga0). split.
+    + intros [Hne [tb [Gb Hin]]]. exists (del_refby_f nm R b tb). split.
+      * rewrite get_map_tags, get_del. seq_cases nm b; [congruence|]. rewrite Gb. reflexivity.
+      * rewrite refs_del_refby_f. exact Hin.
+    + intros [tb [Gb Hin]]. rewrite get_map_tags, get_del in Gb. seq_cases nm b; [discriminate|].
+      destruct (get ts b) as [tb0|] eqn:Gb0; cbn [option_map] in Gb; [|discriminate]. injection Gb as <-.
+      rewrite refs_del_refby_f in Hin. split; [congruence|]. exists tb0. auto.
+  - exists rank. intros k t r G Hin. rewrite get_map_tags, get_del in G. seq_cases nm k; [discriminate|].
+    destruct (get ts k) as [t0|] eqn:G0; cbn [option_map] in G; [|discriminate]. injection G as <-.
+    rewrite refs_del_refby_f in Hin. eapply Wr; eauto.
+Qed.
+
+(* ---------------------------------------------------------------- rename *)
+Definition ren_refby_f (nm nn : name) (R : list name) (k : name) (t : tag) : tag :=
+  if mem_s k R then with_refby t (add_name nn (rem_name nm (t_refby t))) else t.
+Lemma refs_ren_refby_f : forall nm nn R k t, refs (ren_refby_f nm nn R k t) = refs t.
+Proof. intros. unfold ren_refby_f. destruct (mem_s k R); reflexivity. Qed.
+
+Lemma get_rename : forall ts nm nn tg R k,
+  get (map_tags (ren_refby_f nm nn R) (set (del ts nm) nn tg)) k =
+  option_map (ren_refby_f nm nn R k)
+    (if String.eqb nn k then Some tg else if String.eqb nm k then None else get ts k).
+Proof. intros. rewrite get_map_tags, get_set, get_del. reflexivity. Qed.
+
+Lemma wf_rename : forall ts nm nn tg,
+  wf_tags ts -> get ts nm = Some tg -> has ts nn = false -> t_refby tg = [] ->
+  wf_tags (map_tags (ren_refby_f nm nn (refs tg)) (set (del ts nm) nn tg)).
+Proof.
+  intros ts nm nn tg W Gn Hnew Hrb. set (R := refs tg) in *.
+  pose proof W as [Wn Wc Wm [rank Wr]].
+  assert (Hnone : get ts nn = None) by (apply has_false_get; auto).
+  assert (Hne : nn <> nm) by (intros ->; congruence).
+  assert (Hnoref : forall b tb, get ts b = Some tb -> ~ In nm (refs tb)).
+  { intros b tb Gb Hin. assert (In b (t_refby tg)) by (apply (Wm nm tg b Gn); eauto). rewrite Hrb in H. destruct H. }
+  assert (Hnn : forall b tb, get ts b = Some tb -> ~ In nn (refs tb)).
+  { intros b tb Gb Hin. pose proof (Wc b tb nn Gb Hin). congruence. }
+  assert (HnnR : mem_s nn R = false) by (apply mem_s_not_In; apply (Hnn nm tg Gn)).
+  assert (E0 : ren_refby_f nm nn R nn tg = tg) by (unfold ren_refby_f; rewrite HnnR; reflexivity).
+  constructor.
+  - rewrite keys_map_tags. apply nodup_keys_set. apply nodup_keys_del. auto.
+  - intros k t r G Hin. rewrite has_map_tags, has_set, has_del.
+    rewrite get_rename in G. seq_cases nn k.
+    + subst k. cbn [option_map] in G. injection G as <-. rewrite refs_ren_refby_f in Hin.
+      rewrite (Wc nm tg r Gn Hin). seq_cases nm r; [subst; exfalso; eapply Hnoref; eauto|]. apply orb_true_r.
+    + seq_cases nm k; [discriminate|].
+      destruct (get ts k) as [t0|] eqn:G0; cbn [option_map] in G; [|discriminate]. injection G as <-.
+      rewrite refs_ren_refby_f in Hin. rewrite (Wc k t0 r G0 Hin).
+      seq_cases nm r; [subst; exfalso; eapply Hnoref; eauto|]. apply orb_true_r.
+  - intros a ta b G. rewrite get_rename in G. seq_cases nn a.
+    + subst a. cbn [option_map] in G. injection G as <-. rewrite E0, Hrb. split; [intros []|].
+      intros [tb [Gb Hin]]. rewrite get_rename in Gb. seq_cases nn b.
+      * subst b. cbn [option_map] in Gb. injection Gb as <-. rewrite refs_ren_refby_f in Hin.
+        eapply Hnn; eauto.
+      * seq_cases nm b; [discriminate|].
+        destruct (get ts b) as [tb0|] eqn:Gb0; cbn [option_map] in Gb; [|discriminate]. injection Gb as <-.
+        rewrite refs_ren_refby_f in Hin. eapply Hnn; eauto.
+    + seq_cases nm a; [discriminate|].
+      destruct (get ts a) as [ta0|] eqn:Ga0; cbn [option_map] in G; [|discriminate]. injection G as <-.
+      assert (Hb : In b (t_refby (ren_refby_f nm nn R a ta0)) <->
+                   (In a R /\ b = nn) \/ (b <> nm /\ In b (t_refby ta0))).
+      { unfold ren_refby_f. destruct (mem_s a R) eqn:Em.
+        - apply mem_s_In in Em. simpl. rewrite In_add_name, In_rem_name. tauto.
+        - apply mem_s_not_In in Em. split; [|tauto]. intros Hin. right. split; auto. intros ->.
+          apply Em. apply (Wm a ta0 nm Ga0) in Hin. destruct Hin as [tb [Gb Hin]]. unfold R. congruence. }
+      rewrite Hb. split.
+      * intros [[Ha ->]|[Hbn Hin]].
+        -- exists tg. split.
+           ++ rewrite get_rename. rewrite String.eqb_refl. cbn [option_map]. f_equal. exact E0.
+           ++ exact Ha.
+        -- apply (Wm a ta0 b Ga0) in Hin. destruct Hin as [tb [Gb Hin]].
+           exists (ren_refby_f nm nn R b tb). split.
+           ++ rewrite get_rename. seq_cases nn b; [subst; congruence|]. seq_cases nm b; [congruence|].
+              rewrite Gb. reflexivity.
+           ++ rewrite refs_ren_refby_f. exact Hin.
+      * intros [tb [Gb Hin]]. rewrite get_rename in Gb. seq_cases nn b.
+        -- subst b. cbn [option_map] in Gb. injection Gb as <-. rewrite refs_ren_refby_f in Hin. left. auto.
+        -- seq_cases nm b; [discriminate|].
+           destruct (get ts b) as [tb0|] eqn:Gb0; cbn [option_map] in Gb; [|discriminate]. injection Gb as <-.
+           rewrite refs_ren_refby_f in Hin. right. split; [congruence|].
+           apply (Wm a ta0 b Ga0). exists tb0. auto.
+  - exists (fun x => if String.eqb x nn then rank nm else rank x).
+    intros k t r G Hin. rewrite get_rename in G.
+    assert (Hr_ne : forall k0 t0, get ts k0 = Some t0 -> In r (refs t0) -> String.eqb r nn = false).
+    { intros k0 t0 G0 H0. apply seqb_neq. intros ->. eapply Hnn; eauto. }
+    seq_cases nn k.
+    + subst k. cbn [option_map] in G. injection G as <-. rewrite refs_ren_refby_f in Hin.
+      rewrite String.eqb_refl. rewrite (Hr_ne nm tg Gn Hin). eapply Wr; eauto.
+    + seq_cases nm k; [discriminate|].
+      destruct (get ts k) as [t0|] eqn:G0; cbn [option_map] in G; [|discriminate]. injection G as <-.
+      rewrite refs_ren_refby_f in Hin. rewrite (Hr_ne k t0 G0 Hin).
+      seq_cases k nn; [congruence|]. eapply Wr; eauto.
+Qed.
+
+(* ---------------------------------------------------------------- the reference walk of UpdateTag *)
+Definition dfs_inv (ts : tags_t) (nm : name) (todo seen : list name) : Prop :=
+  forall s, In s seen -> s <> nm /\ exists t, get ts s = Some t /\ forall r, In r (refs t) -> In r seen \/ In r todo.
+
+Lemma dfs_sound : forall fuel ts nm todo seen S,
+  dfs fuel ts nm todo seen = DOk S -> dfs_inv ts nm todo seen ->
+  (forall s, In s todo -> In s S) /\ (forall s, In s seen -> In s S) /\
+  (forall s, In s S -> s <> nm /\ exists t, get ts s = Some t /\ forall r, In r (refs t) -> In r S).
+Proof.
+  induction fuel as [|f IH]; intros ts nm todo seen S H Inv; simpl in H; [discriminate|].
+  destruct todo as [|tn rest].
+  - injection H as <-. split; [intros s []|]. split; auto.
+    intros s Hs. destruct (Inv s Hs) as [Hne [t [G Hr]]]. split; auto. exists t. split; auto.
+    intros r Hin. destruct (Hr r Hin) as [?|[]]; auto.
+  - seq_cases tn nm; [discriminate|].
+    destruct (mem_s tn seen) eqn:Em.
+    + apply mem_s_In in Em. apply IH in H.
+      * destruct H as [H1 [H2 H3]]. split; [|split; auto]. intros s [<-|Hs]; auto.
+      * intros s Hs. destruct (Inv s Hs) as [Hne [t [G Hr]]]. split; auto. exists t. split; auto.
+        intros r Hin. destruct (Hr r Hin) as [?|[<-|?]]; auto.
+    + destruct (get ts tn) as [t|] eqn:G; [|discriminate]. apply IH in H.
+      * destruct H as [H1 [H2 H3]]. split; [|split; auto].
+        -- intros s [<-|Hs]; [apply H2; left; auto|apply H1; apply in_or_app; auto].
+        -- intros s Hs. apply H2. right. auto.
+      * intros s [<-|Hs].
+        -- split; auto. exists t. split; auto. intros r Hin. right. apply in_or_app. auto.
+        -- destruct (Inv s Hs) as [Hne [t0 [G0 Hr]]]. split; auto. exists t0. split; auto.
+           intros r Hin. destruct (Hr r Hin) as [?|[<-|?]].
+           ++ left. right. auto.
+           ++ left. left. auto.
+           ++ right. apply in_or_app. auto.
+Qed.
+
+(* ---------------------------------------------------------------- query update *)
+Lemma refs_retarget : forall nm o n k t, refs (retarget nm o n k t) = refs t.
+Proof.
+  intros. unfold retarget. destruct (mem_s k o && negb (mem_s k n)); [reflexivity|].
+  destruct (mem_s k n && negb (mem_s k o)); reflexivity.
+Qed.
+
+Lemma In_refby_retarget : forall nm o n k t b,
+  In b (t_refby (retarget nm o n k t)) <->
+  (if mem_s k o && negb (mem_s k n) then b <> nm /\ In b (t_refby t)
+   else if mem_s k n && negb (mem_s k o) then b = nm \/ In b (t_refby t)
+   else In b (t_refby t)).
+Proof.
+  intros. unfold retarget. destruct (mem_s k o && negb (mem_s k n)).
+  - simpl. apply In_rem_name.
+  - destruct (mem_s k n && negb (mem_s k o)).
+    + simpl. apply In_add_name.
+    + tauto.
+Qed.
+
+Lemma wf_update_query : forall ts nm tg nt V,
+  wf_tags ts -> get ts nm = Some tg -> t_refby nt = t_refby tg ->
+  (forall r, In r (refs nt) -> In r V) ->
+  (forall s, In s V -> s <> nm /\ exists t, get ts s = Some t /\ forall r, In r (refs t) -> In r V) ->
+  wf_tags (set (map_tags (retarget nm (refs tg) (refs nt)) ts) nm nt).
+Proof.
+  intros ts nm tg nt V W Gn Hrb HN HS. set (O := refs tg) in *. set (N' := refs nt) in *.
+  pose proof W as [Wn Wc Wm [rank Wr]].
+  assert (HnmN : ~ In nm N') by (intros H; apply HN in H; apply HS in H; tauto).
+  assert (HnmO : ~ In nm O) by (eapply wf_no_self; eauto).
+  assert (Hget : forall k, get (set (map_tags (retarget nm O N') ts) nm nt) k =
+                           if String.eqb nm k then Some nt else option_map (retarget nm O N' k) (get ts k)).
+  { intros k. rewrite get_set, get_map_tags. reflexivity. }
+  assert (Hhas : forall k, has (set (map_tags (retarget nm O N') ts) nm nt) k = has ts k).
+  { intros k. rewrite has_set, has_map_tags. seq_cases nm k; auto. subst k. simpl. symmetry. apply has_get. eauto. }
+  constructor.
+  - apply nodup_keys_set. rewrite keys_map_tags. auto.
+  - intros k t r G Hin. rewrite Hhas. rewrite Hget in G. seq_cases nm k.
+    + injection G as <-. apply HN in Hin. apply HS in Hin. destruct Hin as [_ [t0 [G0 _]]]. apply has_get. eauto.
+    + destruct (get ts k) as [t0|] eqn:G0; cbn [option_map] in G; [|discriminate]. injection G as <-.
+      rewrite refs_retarget in Hin. eapply Wc; eauto.
+  - intros a ta b G. rewrite Hget in G. seq_cases nm a.
+    + subst a. injection G as <-. rewrite Hrb. rewrite (Wm nm tg b Gn). split.
+      * intros [tb [Gb Hin]]. seq_cases nm b; [subst b; exfalso; apply HnmO; unfold O; congruence|].
+        exists (retarget nm O N' b tb). split.
+        -- rewrite Hget. apply seqb_neq in E. rewrite E. rewrite Gb. reflexivity.
+        -- rewrite refs_retarget. exact Hin.
+      * intros [tb [Gb Hin]]. rewrite Hget in Gb. seq_cases nm b.
+        -- injection Gb as <-. contradiction.
+        -- destruct (get ts b) as [tb0|] eqn:Gb0; cbn [option_map] in Gb; [|discriminate]. injection Gb as <-.
+           rewrite refs_retarget in Hin. exists tb0. auto.
+    + destruct (get ts a) as [ta0|] eqn:Ga0; cbn [option_map] in G; [|discriminate]. injection G as <-.
+      rewrite In_refby_retarget.
+      (* what the old table says about nm and a *)
+      assert (Hnm : In nm (t_refby ta0) <-> In a O).
+      { rewrite (Wm a ta0 nm Ga0). split.
+        - intros [tb [Gb Hin]]. unfold O. congruence.
+        - intros Hin. exists tg. auto. }
+      assert (Hrhs : (exists tb, get (set (map_tags (retarget nm O N') ts) nm nt) b = Some tb /\ In a (refs tb)) <->
+                     (b = nm /\ In a N') \/ (b <> nm /\ In b (t_refby ta0))).
+      { split.
+        - intros [tb [Gb Hin]]. rewrite Hget in Gb. seq_cases nm b.
+          + injection Gb as <-. left. auto.
+          + destruct (get ts b) as [tb0|] eqn:Gb0; cbn [option_map] in Gb; [|discriminate]. injection Gb as <-.
+            rewrite refs_retarget in Hin. right. split; [congruence|]. apply (Wm a ta0 b Ga0). eauto.
+        - intros [[-> Hin]|[Hne Hin]].
+          + exists nt. split; auto. rewrite Hget. rewrite String.eqb_refl. reflexivity.
+          + apply (Wm a ta0 b Ga0) in Hin. destruct Hin as [tb [Gb Hin]].
+            exists (retarget nm O N' b tb). split.
+            * rewrite Hget. assert (String.eqb nm b = false) as -> by (apply seqb_neq; congruence). rewrite Gb. reflexivity.
+            * rewrite refs_retarget. exact Hin. }
+      rewrite Hrhs.
+      destruct (mem_s a O) eqn:EO; [apply mem_s_In in EO|apply mem_s_not_In in EO];
+        (destruct (mem_s a N') eqn:EN; [apply mem_s_In in EN|apply mem_s_not_In in EN]); simpl.
+      * (* in both *) split.
+        -- intros Hin. seq_cases b nm; [left; subst; auto|right; auto].
+        -- intros [[-> _]|[_ Hin]]; auto. apply Hnm. auto.
+      * (* only before *) split.
+        -- intros [Hne Hin]. right. auto.
+        -- intros [[-> Hin]|[Hne Hin]]; [contradiction|auto].
+      * (* only after *) split.
+        -- intros [->|Hin]; [left; auto|]. seq_cases b nm; [left; subst; auto|right; auto].
+        -- intros [[-> _]|[_ Hin]]; auto.
+      * (* in neither *) split.
+        -- intros Hin. seq_cases b nm; [subst; exfalso; apply EO; apply Hnm; auto|right; auto].
+        -- intros [[-> Hin]|[_ Hin]]; [contradiction|auto].
+  - (* everything outside V is lifted above V *)
+    set (M := Datatypes.S (list_max (map rank V))).
+    exists (fun x => if mem_s x V then rank x else rank x + M).
+    assert (HM : forall s, In s V -> rank s < M).
+    { intros s Hs. pose proof (list_max_ge rank V s Hs). unfold M. lia. }
+    intros k t r G Hin. rewrite Hget in G. seq_cases nm k.
+    + subst k. injection G as <-. apply HN in Hin. pose proof (HM r Hin).
+      assert (mem_s nm V = false) as -> by (apply mem_s_not_In; intros H1; apply HS in H1; tauto).
+      apply mem_s_In in Hin. rewrite Hin. lia.
+    + destruct (get ts k) as [t0|] eqn:G0; cbn [option_map] in G; [|discriminate]. injection G as <-.
+      rewrite refs_retarget in Hin. pose proof (Wr k t0 r G0 Hin).
+      destruct (mem_s k V) eqn:Ek.
+      * apply mem_s_In in Ek. destruct (HS k Ek) as [_ [t1 [G1 Hc]]].
+        assert (t1 = t0) by congruence. subst t1. apply Hc in Hin. apply mem_s_In in Hin. rewrite Hin. exact H.
+      * destruct (mem_s r V) eqn:Er.
+        -- apply mem_s_In in Er. pose proof (HM r Er). lia.
+        -- lia.
+Qed.
+
+(* ---------------------------------------------------------------- inheritTagUncertainty *)
+Lemma gview_with_unc : forall t u, gview (with_unc t u) = gview t.
+Proof. reflexivity. Qed.
+
+Lemma visit_props : forall all ts res n ts' res',
+  inherit_visit all (ts, res) n = (ts', res') ->
+  same_graph ts ts' /\ keys ts' = keys ts /\ incl res res' /\
+  (forall t, get ts n = Some t -> (forall r, In r (refs t) -> In r res) -> In n res').
+Proof.
+  intros all ts res n ts' res' H. unfold inherit_visit in H.
+  destruct (get ts n) as [ti|] eqn:G.
+  2:{ injection H as <- <-. repeat split; auto using same_graph_refl, incl_refl. intros t Ht. discriminate. }
+  destruct (mem_s n res) eqn:Em.
+  { injection H as <- <-. apply mem_s_In in Em. repeat split; auto using same_graph_refl, incl_refl. }
+  destruct (forallb (fun r => mem_s r res) (refs ti)) eqn:Ef; simpl in H.
+  2:{ injection H as <- <-. repeat split; auto using same_graph_refl, incl_refl.
+      intros t Ht Hall. injection Ht as <-. exfalso.
+      assert (forallb (fun r => mem_s r res) (refs ti) = true); [|congruence].
+      apply forallb_forall. intros r Hr. apply mem_s_In. auto. }
+  assert (Hset : forall u, same_graph ts (set ts n (with_unc ti u)) /\ keys (set ts n (with_unc ti u)) = keys ts).
+  { intros u. split.
+    - eapply same_graph_set; eauto.
+    - apply keys_set_has. apply has_get. eauto. }
+  destruct (negb (nonempty (t_main ti)) && negb (nonempty (t_sub ti))).
+  { injection H as <- <-. repeat split; auto using same_graph_refl, incl_tl, incl_refl. intros; left; auto. }
+  match type of H with (if ?c then _ else _) = _ => destruct c end;
+    injection H as <- <-; destruct (Hset all) as [A1 A2];
+    match goal with |- same_graph _ (set _ _ (with_unc _ ?u)) /\ _ => destruct (Hset u) as [B1 B2] end;
+    repeat split; auto using incl_tl, incl_refl; intros; left; auto.
+Qed.
+
+Lemma fold_visit_props : forall all l ts res ts' res',
+  fold_left (inherit_visit all) l (ts, res) = (ts', res') ->
+  same_graph ts ts' /\ keys ts' = keys ts /\ incl res res' /\
+  (forall k t, In k l -> get ts k = Some t -> (forall r, In r (refs t) -> In r res) -> In k res').
+Proof.
+  intros all. induction l as [|x l IH]; intros ts res ts' res' H; cbn [fold_left] in H.
+  - injection H as <- <-. repeat split; auto using same_graph_refl, incl_refl. intros k t [].
+  - destruct (inherit_visit all (ts, res) x) as [ts1 res1] eqn:V.
+    destruct (visit_props _ _ _ _ _ _ V) as [V1 [V2 [V3 V4]]].
+    destruct (IH _ _ _ _ H) as [I1 [I2 [I3 I4]]].
+    split; [eapply same_graph_trans; eauto|]. split; [congruence|]. split; [eapply incl_tran; eauto|].
+    intros k t [->|Hin] G Hall.
+    + apply I3. eapply V4; eauto.
+    + pose proof (V1 k) as Hk. rewrite G in Hk. simpl in Hk.
+      destruct (get ts1 k) as [t1|] eqn:G1; simpl in Hk; [|discriminate].
+      unfold gview in Hk. injection Hk as R1 R2.
+      eapply I4; eauto. intros r Hr. apply V3. apply Hall. rewrite R1. auto.
+Qed.
+
+Definition unresolved (ts : tags_t) (res : list name) : list name :=
+  filter (fun k => negb (mem_s k res)) (keys ts).
+
+Lemma all_resolved_unresolved : forall ts res, all_resolved ts res = true <-> unresolved ts res = [].
+Proof.
+  intros ts res. unfold all_resolved, unresolved. induction (keys ts) as [|k l IH]; simpl; [tauto|].
+  destruct (mem_s k res); simpl; auto. split; discriminate.
+Qed.
+
+Lemma filter_length_lt : forall (f g : name -> bool) l x,
+  (forall y, g y = true -> f y = true) -> In x l -> f x = true -> g x = false ->
+  List.length (filter g l) < List.length (filter f l).
+Proof.
+  intros f g l x Himp. induction l as [|y l IH]; intros Hin Hf Hg; [destruct Hin|].
+  assert (Hle : forall l', List.length (filter g l') <= List.length (filter f l')).
+  { induction l' as [|z l' IH']; simpl; auto. destruct (g z) eqn:Eg.
+    - rewrite (Himp z Eg). simpl. lia.
+    - destruct (f z); simpl; lia. }
+  simpl. destruct Hin as [->|Hin].
+  - rewrite Hf, Hg. simpl. specialize (Hle l). lia.
+  - specialize (IH Hin Hf Hg). destruct (g y) eqn:Eg.
+    + rewrite (Himp y Eg). simpl. lia.
+    + destruct (f y); simpl; lia.
+Qed.
+
+(* some unresolved tag has all its references resolved (the graph is closed and ranked) *)
+Lemma exists_ready : forall ts res rank, closed ts -> ranked ts rank ->
+  forall n k, rank k < n -> has ts k = true -> mem_s k res = false ->
+  exists k' t', get ts k' = Some t' /\ mem_s k' res = false /\ forall r, In r (refs t') -> In r res.
+Proof.
+  intros ts res rank Hc Hr. induction n as [|n IH]; intros k Hlt Hk Hun; [lia|].
+  apply has_get in Hk. destruct Hk as [t G].
+  destruct (forallb (fun r => mem_s r res) (refs t)) eqn:Ef.
+  - exists k, t. split; auto. split; auto. intros r Hin.
+    rewrite forallb_forall in Ef. apply mem_s_In. auto.
+  - assert (exists r, In r (refs t) /\ mem_s r res = false) as [r [Hin Hrn]].
+    { clear -Ef. induction (refs t) as [|x l IHl]; simpl in Ef; [discriminate|].
+      destruct (mem_s x res) eqn:Ex; simpl in Ef.
+      - destruct (IHl Ef) as [r [H1 H2]]. exists r. split; auto. right; auto.
+      - exists x. split; auto. left; auto. }
+    apply (IH r); auto.
+    + specialize (Hr k t r G Hin). lia.
+    + eapply Hc; eauto.
+Qed.
+
+Lemma inherit_loop_terminates : forall fuel all ts res,
+  wf_tags ts -> List.length (unresolved ts res) <= fuel ->
+  exists ts' res', inherit_loop fuel all ts res = Some (ts', res') /\ same_graph ts ts' /\ keys ts' = keys ts.
+Proof.
+  induction fuel as [|f IH]; intros all ts res W Hle.
+  - assert (all_resolved ts res = true) as E.
+    { apply all_resolved_unresolved. destruct (unresolved ts res); auto. simpl in Hle. lia. }
+    simpl. rewrite E. exists ts, res. split; auto. split; auto using same_graph_refl.
+  - simpl. destruct (all_resolved ts res) eqn:E.
+    + exists ts, res. split; auto. split; auto using same_graph_refl.
+    + destruct (fold_left (inherit_visit all) (keys ts) (ts, res)) as [ts1 res1] eqn:F.
+      destruct (fold_visit_props _ _ _ _ _ _ F) as [F1 [F2 [F3 F4]]].
+      pose proof W as [Wn Wc Wm [rank Wr]].
+      (* an unresolved key exists *)
+      assert (exists k, In k (keys ts) /\ mem_s k res = false) as [k [Hk Hun]].
+      { unfold all_resolved in E. clear -E. induction (keys ts) as [|x l IHl]; simpl in E; [discriminate|].
+        destruct (mem_s x res) eqn:Ex; simpl in E.
+        - destruct (IHl E) as [k [H1 H2]]. exists k. split; auto. right; auto.
+        - exists x. split; auto. left; auto. }
+      apply get_In_keys in Hk.
+      destruct (exists_ready ts res rank Wc Wr (Datatypes.S (rank k)) k (Nat.lt_succ_diag_r _) Hk Hun) as [k' [t' [G' [Hun' Hall]]]].
+      assert (Hin' : In k' (keys ts)) by (apply get_In_keys; apply has_get; eauto).
+      pose proof (F4 k' t' Hin' G' Hall) as Hres.
+      assert (W1 : wf_tags ts1) by (eapply wf_same_graph; eauto; rewrite F2; auto).
+      assert (Hlt : List.length (unresolved ts1 res1) < List.length (unresolved ts res)).
+      { unfold unresolved. rewrite F2. apply (filter_length_lt _ _ _ k'); auto.
+        - intros y Hy. apply negb_true_iff in Hy. apply negb_true_iff. apply mem_s_not_In. apply mem_s_not_In in Hy.
+          intros H. apply Hy. apply F3. auto.
+        - rewrite Hun'. reflexivity.
+        - apply negb_false_iff. apply mem_s_In. auto. }
+      destruct (IH all ts1 res1 W1) as [ts' [res' [L1 [L2 L3]]]]; [lia|].
+      exists ts', res'. split; auto. split; [eapply same_graph_trans; eauto|congruence].
+Qed.
+
+Lemma unresolved_le : forall ts res, List.length (unresolved ts res) <= List.length ts.
+Proof.
+  intros. unfold unresolved. rewrite <- (map_length fst ts). fold (keys ts).
+  induction (keys ts) as [|x l IH]; simpl; auto. destruct (negb (mem_s x res)); simpl; lia.
+Qed.
+
+Lemma inherit_terminates : forall all ts, wf_tags ts ->
+  exists ts' res', inherit_uncertainty all ts = Some (ts', res') /\ same_graph ts ts' /\ keys ts' = keys ts.
+Proof.
+  intros all ts W. unfold inherit_uncertainty. apply inherit_loop_terminates; auto. apply unresolved_le.
+Qed.
+
+(* ---------------------------------------------------------------- the reference walk never runs out of fuel *)
+Definition pending (ts : tags_t) (seen : list name) : nat :=
+  fold_right (fun kv a => (if mem_s (fst kv) seen then 0 else List.length (refs (snd kv))) + a) 0 ts.
+
+Lemma pending_nil : forall ts, pending ts [] = edge_count ts.
+Proof. induction ts as [|[k v] r IH]; simpl; auto. Qed.
+
+Lemma mem_s_cons : forall k x l, mem_s k (x :: l) = String.eqb k x || mem_s k l.
+Proof. reflexivity. Qed.
+
+Lemma pending_cons : forall k v r seen,
+  pending ((k, v) :: r) seen = (if mem_s k seen then 0 else List.length (refs v)) + pending r seen.
+Proof. reflexivity. Qed.
+
+Lemma pending_mono : forall ts x seen, pending ts (x :: seen) <= pending ts seen.
+Proof.
+  induction ts as [|[k v] r IH]; intros x seen; [simpl; auto|].
+  rewrite !pending_cons. specialize (IH x seen). rewrite mem_s_cons. destruct (String.eqb k x); simpl.
+  - destruct (mem_s k seen); lia.
+  - destruct (mem_s k seen); lia.
+Qed.
+
+Lemma pending_mark : forall ts tn t seen, get ts tn = Some t -> mem_s tn seen = false ->
+  pending ts (tn :: seen) + List.length (refs t) <= pending ts seen.
+Proof.
+  induction ts as [|[k v] r IH]; intros tn t seen G Hs; [discriminate|].
+  rewrite !pending_cons. rewrite mem_s_cons. cbn [get] in G. seq_cases k tn.
+  - subst k. injection G as ->. simpl. rewrite Hs.
+    pose proof (pending_mono r tn seen). lia.
+  - simpl. specialize (IH tn t seen G Hs).
+    destruct (mem_s k seen); lia.
+Qed.
+
+Lemma dfs_fuel_enough : forall fuel ts nm todo seen,
+  List.length todo + pending ts seen < fuel -> dfs fuel ts nm todo seen <> DFuel.
+Proof.
+  induction fuel as [|f IH]; intros ts nm todo seen H; [lia|]. simpl.
+  destruct todo as [|tn rest]; [discriminate|].
+  destruct (String.eqb tn nm); [discriminate|].
+  destruct (mem_s tn seen) eqn:Es.
+  - apply IH. simpl in H. lia.
+  - destruct (get ts tn) as [t|] eqn:G; [|discriminate].
+    apply IH. pose proof (pending_mark ts tn t seen G Es). rewrite app_length. simpl in H. lia.
+Qed.
+
+Lemma dfs_initial_fuel : forall ts nm todo, dfs (dfs_fuel ts todo) ts nm todo [] <> DFuel.
+Proof.
+  intros. apply dfs_fuel_enough. rewrite pending_nil. unfold dfs_fuel. lia.
+Qed.
+
+(* ---------------------------------------------------------------- the API transitions *)
+(* outcome of a call on a well-formed table: applied (and the table stays well-formed) or
+   rejected with the state unchanged; never Crash (nil dereference) nor Hang (endless loop) *)
+Definition good_outcome (st : state) (out : result * state) : Prop :=
+  (fst out = Ok /\ wf_tags (tags (snd out)) /\ convs (snd out) = convs st /\ next_id (snd out) = next_id st)
+  \/ (exists e, fst out = Err e /\ snd out = st).
+
+Lemma good_err : forall st e, good_outcome st (Err e, st).
+Proof. intros. right. exists e. auto. Qed.
+Lemma good_ok : forall st ts, wf_tags ts -> good_outcome st (Ok, with_tags st ts).
+Proof. intros. left. simpl. auto. Qed.
+Lemma good_ok_same : forall st, wf_tags (tags st) -> good_outcome st (Ok, st).
+Proof. intros. left. simpl. auto. Qed.
+
+Lemma nonempty_false : forall {A} (l : list A), nonempty l = false -> l = [].
+Proof. intros A [|x l] H; auto. discriminate. Qed.
+
+Lemma add_tag_good : forall parse st nm color qs,
+  wf_tags (tags st) -> good_outcome st (add_tag parse st nm color qs).
+Proof.
+  intros parse st nm color qs W. unfold add_tag.
+  destruct (parse_tag_name nm) as [[typ sub] is_mark].
+  destruct (String.eqb typ ""); [apply good_err|].
+  destruct (String.eqb sub ""); [apply good_err|].
+  destruct (parse qs) as [|p]; [apply good_err|].
+  destruct (p_rel p); [apply good_err|].
+  destruct (p_group p); [apply good_err|].
+  match goal with |- context [mem_s nm (refs ?t)] => set (nt := t) end.
+  destruct (mem_s nm (refs nt)) eqn:Eself; [apply good_err|].
+  destruct (is_mark && negb (is_some (p_ids p))); [apply good_err|].
+  destruct (has (tags st) nm) eqn:Ehas; [apply good_err|].
+  destruct (forallb (has (tags st)) (refs nt)) eqn:Eall; simpl; [|apply good_err].
+  rewrite forallb_has in Eall.
+  assert (forallb (has (set (tags st) nm nt)) (refs nt) = true) as ->.
+  { apply forallb_has. intros r Hr. rewrite has_set. rewrite (Eall r Hr). apply orb_true_r. }
+  simpl. apply good_ok.
+  apply (wf_add (tags st) nm nt); auto. apply mem_s_not_In. auto.
+Qed.
+
+Lemma del_tag_good : forall st nm, wf_tags (tags st) -> good_outcome st (del_tag st nm).
+Proof.
+  intros st nm W. unfold del_tag.
+  destruct (get (tags st) nm) as [tg|] eqn:G; [|apply good_err].
+  destruct (nonempty (t_refby tg)) eqn:Erb; [apply good_err|]. apply nonempty_false in Erb.
+  assert (forallb (has (del (tags st) nm)) (refs tg) = true) as ->.
+  { apply forallb_has. intros r Hr. rewrite has_del. rewrite (wf_closed _ W nm tg r G Hr).
+    seq_cases nm r; auto. subst r. exfalso. eapply wf_no_self; eauto. }
+  simpl. apply good_ok. apply (wf_del (tags st) nm tg); auto.
+Qed.
+
+Lemma wf_set_same_graph : forall ts n t t', wf_tags ts -> get ts n = Some t -> gview t' = gview t -> wf_tags (set ts n t').
+Proof.
+  intros ts n t t' W G E. eapply wf_same_graph; [eapply same_graph_set; eauto| |auto].
+  apply nodup_keys_set. apply W.
+Qed.
+
+Lemma update_color_good : forall st nm c, wf_tags (tags st) -> good_outcome st (update_color st nm c).
+Proof.
+  intros st nm c W. unfold update_color.
+  destruct (get (tags st) nm) as [tg|] eqn:G; [|apply good_err].
+  destruct (String.eqb c ""); [apply good_ok_same; auto|].
+  apply good_ok. eapply wf_set_same_graph; eauto.
+Qed.
+
+Lemma update_convs_good : forall st nm l, wf_tags (tags st) -> good_outcome st (update_convs st nm l).
+Proof.
+  intros st nm l W. unfold update_convs.
+  destruct (get (tags st) nm) as [tg|] eqn:G; [|apply good_err].
+  match goal with |- context [if negb ?c then _ else _] => destruct c end; simpl; [|apply good_err].
+  match goal with |- context [if ?c then _ else _] => destruct c end; [apply good_err|].
+  apply good_ok. eapply wf_set_same_graph; eauto.
+Qed.
+
+Lemma update_name_good : forall st nm nn, wf_tags (tags st) -> good_outcome st (update_name st nm nn).
+Proof.
+  intros st nm nn W. unfold update_name.
+  destruct (get (tags st) nm) as [tg|] eqn:G; [|apply good_err].
+  destruct (String.eqb nn ""); [apply good_ok_same; auto|].
+  destruct (parse_tag_name nm) as [[otyp osub] om].
+  destruct (parse_tag_name nn) as [[ntyp nsub] nmk].
+  destruct (negb (String.eqb ntyp otyp)); [apply good_err|].
+  destruct (String.eqb nsub ""); [apply good_err|].
+  destruct (has (tags st) nn) eqn:Ehas; [apply good_err|].
+  destruct (nonempty (t_refby tg)) eqn:Erb; [apply good_err|]. apply nonempty_false in Erb.
+  assert (forallb (has (set (del (tags st) nm) nn tg)) (refs tg) = true) as ->.
+  { apply forallb_has. intros r Hr. rewrite has_set, has_del. rewrite (wf_closed _ W nm tg r G Hr).
+    seq_cases nm r; [|apply orb_true_r]. subst r. exfalso. eapply wf_no_self; eauto. }
+  simpl. apply good_ok. apply (wf_rename (tags st) nm nn tg); auto.
+Qed.
+
+Lemma after_inherit_good : forall st ts k,
+  wf_tags ts -> (forall ts', wf_tags ts' -> wf_tags (k ts')) -> good_outcome st (after_inherit st ts k).
+Proof.
+  intros st ts k W Hk. unfold after_inherit.
+  destruct (inherit_terminates (all_streams st) ts W) as [ts' [res' [E [Hg Hkeys]]]].
+  rewrite E. apply good_ok. apply Hk. eapply wf_same_graph; eauto. rewrite Hkeys. apply W.
+Qed.
+
+Lemma update_marks_good : forall st nm add l, wf_tags (tags st) -> good_outcome st (update_marks st nm add l).
+Proof.
+  intros st nm add l W. unfold update_marks.
+  destruct (negb (nonempty l)).
+  { destruct (get (tags st) nm); [apply good_ok_same; auto|apply good_err]. }
+  destruct (negb (String.prefix "mark/" nm || String.prefix "generated/" nm)); [apply good_err|].
+  destruct (get (tags st) nm) as [tg|] eqn:G; [|apply good_err].
+  match goal with |- context [if ?c then _ else _] => destruct c end; [apply good_err|].
+  apply after_inherit_good.
+  - eapply wf_set_same_graph; eauto.
+  - intros ts' W'. destruct (get ts' nm) as [t|] eqn:G'; auto. eapply wf_set_same_graph; eauto.
+Qed.
+
+Lemma update_query_good : forall parse st nm qs, wf_tags (tags st) -> good_outcome st (update_query parse st nm qs).
+Proof.
+  intros parse st nm qs W. unfold update_query.
+  destruct (parse qs) as [|p]; [apply good_err|].
+  destruct (p_rel p); [apply good_err|].
+  destruct (p_group p); [apply good_err|].
+  match goal with |- context [mem_s nm (refs ?t)] => set (nt0 := t) end.
+  destruct (mem_s nm (refs nt0)); [apply good_err|].
+  match goal with |- context [if ?c then (Err EMarkNotId, _) else _] => destruct c end; [apply good_err|].
+  destruct (get (tags st) nm) as [tg|] eqn:G; [|apply good_err].
+  destruct (dfs (dfs_fuel (tags st) (refs nt0)) (tags st) nm (refs nt0) []) as [V| | |] eqn:D;
+    [|apply good_err|apply good_err|exfalso; eapply dfs_initial_fuel; eauto].
+  apply dfs_sound in D; [|intros s []]. destruct D as [D1 [_ D3]].
+  match goal with |- context [retarget nm (refs tg) (refs ?t)] => set (nt := t) end.
+  assert (Hrefs : refs nt = refs nt0) by reflexivity.
+  assert (forallb (has (tags st)) (refs tg ++ refs nt) = true) as ->.
+  { apply forallb_has. intros r Hr. apply in_app_or in Hr. destruct Hr as [Hr|Hr].
+    - eapply wf_closed; eauto.
+    - rewrite Hrefs in Hr. apply D1 in Hr. apply D3 in Hr. destruct Hr as [_ [t [Gt _]]]. apply has_get. eauto. }
+  simpl. apply after_inherit_good; auto.
+  apply (wf_update_query (tags st) nm tg nt V); auto.
+Qed.
+
+Theorem step_good : forall parse st c, wf_tags (tags st) -> good_outcome st (step parse st c).
+Proof.
+  intros parse st c W. destruct c as [nm color qs|nm|nm op]; simpl.
+  - apply add_tag_good; auto.
+  - apply del_tag_good; auto.
+  - destruct op; simpl.
+    + apply update_color_good; auto.
+    + apply update_query_good; auto.
+    + apply update_name_good; auto.
+    + apply update_convs_good; auto.
+    + apply update_marks_good; auto.
+    + apply update_marks_good; auto.
+Qed.
+
+(* ---------------------------------------------------------------- atomicity, for every state *)
+Ltac peel :=
+  repeat match goal with
+         | |- context [let '(_, _) := ?x in _] => destruct x
+         | |- context [if ?c then _ else _] => destruct c
+         | |- context [match ?x with _ => _ end] => destruct x
+         end.
+
+Ltac fin := intros H Hne; injection H as <- <-; try reflexivity; try (exfalso; apply Hne; reflexivity).
+
+Theorem step_atomic : forall parse st c r st',
+  step parse st c = (r, st') -> r <> Ok -> st' = st.
+Proof.
+  intros parse st c r st'. destruct c as [nm color qs|nm|nm op]; simpl.
+  - unfold add_tag. peel; fin.
+  - unfold del_tag. peel; fin.
+  - destruct op; simpl.
+    + unfold update_color. peel; fin.
+    + unfold update_query, after_inherit. peel; fin.
+    + unfold update_name. peel; fin.
+    + unfold update_convs. peel; fin.
+    + unfold update_marks, after_inherit. peel; fin.
+    + unfold update_marks, after_inherit. peel; fin.
+Qed.
+
+(* ---------------------------------------------------------------- every history *)
+Lemma step_wf : forall parse st c, wf_tags (tags st) -> wf_tags (tags (snd (step parse st c))).
+Proof.
+  intros parse st c W. destruct (step_good parse st c W) as [[_ [H _]]|[e [_ H]]]; auto. rewrite H. auto.
+Qed.
+
+Theorem run_wf : forall parse cs st, wf_tags (tags st) -> wf_tags (tags (run parse st cs)).
+Proof.
+  intros parse. induction cs as [|c cs IH]; intros st W; simpl; auto.
+  apply IH. apply step_wf. auto.
+Qed.
+
+Theorem history_wf : forall parse cv next cs, wf_tags (tags (run parse (init_state cv next) cs)).
+Proof. intros. apply run_wf. simpl. apply wf_empty. Qed.
+
+(* every call of every history is answered with nil or an error; an error leaves the state unchanged *)
+Theorem history_total_atomic : forall parse cv next cs c,
+  let st := run parse (init_state cv next) cs in
+  (fst (step parse st c) = Ok \/ exists e, fst (step parse st c) = Err e /\ snd (step parse st c) = st).
+Proof.
+  intros parse cv next cs c st.
+  destruct (step_good parse st c (history_wf parse cv next cs)) as [[H _]|[e [H1 H2]]]; eauto.
+Qed.
+
+(* ---------------------------------------------------------------- what well-formedness says *)
+Theorem wf_no_dangling : forall ts k t r, wf_tags ts -> get ts k = Some t -> In r (refs t) -> exists tr, get ts r = Some tr.
+Proof. intros ts k t r W G H. apply has_get. eapply wf_closed; eauto. Qed.
+
+Theorem wf_no_cycle : forall ts a, wf_tags ts -> ~ reach ts a a.
+Proof. intros ts a W. apply acyclic_no_cycle. apply W. Qed.
+
+Definition referenced (t : tag) : bool := nonempty (t_refby t).   (* TagInfo.Referenced *)
+
+Theorem wf_referenced_mirrors : forall ts a ta, wf_tags ts -> get ts a = Some ta ->
+  (referenced ta = true <-> exists b tb, get ts b = Some tb /\ In a (refs tb)).
+Proof.
+  intros ts a ta W G. unfold referenced. split.
+  - destruct (t_refby ta) as [|b l] eqn:E; [discriminate|]. intros _.
+    assert (In b (t_refby ta)) as Hb by (rewrite E; left; auto).
+    apply (wf_mirror _ W a ta b G) in Hb. destruct Hb as [tb Hb]. eauto.
+  - intros [b [tb [Gb Hin]]].
+    assert (In b (t_refby ta)) as Hb by (apply (wf_mirror _ W a ta b G); eauto).
+    destruct (t_refby ta); [destruct Hb|reflexivity].
+Qed.
+
+(* a tag that others reference cannot be deleted or renamed *)
+Theorem del_guard : forall st nm st' b tb, wf_tags (tags st) -> del_tag st nm = (Ok, st') ->
+  get (tags st) b = Some tb -> ~ In nm (refs tb).
+Proof.
+  intros st nm st' b tb W H Gb Hin. unfold del_tag in H.
+  destruct (get (tags st) nm) as [tg|] eqn:G; [|discriminate].
+  destruct (nonempty (t_refby tg)) eqn:E; [discriminate|]. apply nonempty_false in E.
+  assert (In b (t_refby tg)) as Hb by (apply (wf_mirror _ W nm tg b G); eauto).
+  rewrite E in Hb. destruct Hb.
+Qed.
+
+Theorem rename_guard : forall st nm nn st' b tb, wf_tags (tags st) -> nn <> "" -> update_name st nm nn = (Ok, st') ->
+  get (tags st) b = Some tb -> ~ In nm (refs tb).
+Proof.
+  intros st nm nn st' b tb W Hnn H Gb Hin. unfold update_name in H.
+  destruct (get (tags st) nm) as [tg|] eqn:G; [|discriminate].
+  apply seqb_neq in Hnn. rewrite Hnn in H.
+  destruct (parse_tag_name nm) as [[otyp osub] om].
+  destruct (parse_tag_name nn) as [[ntyp nsub] nmk].
+  destruct (negb (String.eqb ntyp otyp)); [discriminate|].
+  destruct (String.eqb nsub ""); [discriminate|].
+  destruct (has (tags st) nn); [discriminate|].
+  destruct (nonempty (t_refby tg)) eqn:E; [discriminate|]. apply nonempty_false in E.
+  assert (In b (t_refby tg)) as Hb by (apply (wf_mirror _ W nm tg b G); eauto).
+  rewrite E in Hb. destruct Hb.
+Qed.
+
+(* ---------------------------------------------------------------- the unpatched UpdateTag (witnesses) *)
+Definition demo_parse (s : string) : parse_result :=
+  if String.eqb s "sport:80" then POk (mkParsed [] [] false false false None)
+  else if String.eqb s "tag:a" then POk (mkParsed ["tag/a"] [] false false false None)
+  else if String.eqb s "tag:b" then POk (mkParsed ["tag/b"] [] false false false None)
+  else if String.eqb s "tag:zz" then POk (mkParsed ["tag/zz"] [] false false false None)
+  else PErr.
+
+Definition run_orig (cs : list call) : state :=
+  fold_left (fun s c => snd (step_orig demo_parse s c)) cs (init_state [] 4%N).
+
+Lemma orig_unknown_reference_crashes :
+  fst (step_orig demo_parse (run_orig [CAdd "tag/b" "red" "sport:80"]) (CUpd "tag/b" (UQuery "tag:zz"))) = Crash.
+Proof. vm_compute. reflexivity. Qed.
+
+Lemma orig_cycle_hangs :
+  fst (step_orig demo_parse (run_orig [CAdd "tag/a" "red" "sport:80"; CAdd "tag/b" "red" "tag:a"])
+                 (CUpd "tag/a" (UQuery "tag:b"))) = Hang.
+Proof. vm_compute. reflexivity. Qed.
+
+(* with any fuel: on a table with the cycle a <-> b the walk of inheritTagUncertainty never ends *)
+Definition cyc_tags : tags_t :=
+  [("tag/a", mkTag "tag:b" ["tag/b"] [] false "" [] ["tag/b"] [] []);
+   ("tag/b", mkTag "tag:a" ["tag/a"] [] false "" [] ["tag/a"] [] [])].
+
+Lemma cycle_never_resolves : forall fuel all, inherit_loop fuel all cyc_tags [] = None.
+Proof. induction fuel as [|f IH]; intros all; [reflexivity|]. simpl. apply IH. Qed.
+
+(* the patched model on the same inputs: rejected, state unchanged *)
+Lemma fixed_unknown_reference_rejected :
+  let st := run demo_parse (init_state [] 4%N) [CAdd "tag/b" "red" "sport:80"] in
+  step demo_parse st (CUpd "tag/b" (UQuery "tag:zz")) = (Err EUnknownRef, st).
+Proof. vm_compute. reflexivity. Qed.
+Lemma fixed_cycle_rejected :
+  let st := run demo_parse (init_state [] 4%N) [CAdd "tag/a" "red" "sport:80"; CAdd "tag/b" "red" "tag:a"] in
+  step demo_parse st (CUpd "tag/a" (UQuery "tag:b")) = (Err ECycle, st).
+Proof. vm_compute. reflexivity. Qed.
